@@ -18,6 +18,8 @@ enum Op {
     Drop(usize),
     Avail(usize, usize),
     Clone,
+    /// `{:?}` of the counter into a sink that fails after this many bytes (usize::MAX: never)
+    Debug(usize),
 }
 
 fn op_json(o: &Op) -> Value {
@@ -26,12 +28,15 @@ fn op_json(o: &Op) -> Value {
         Op::Drop(j) => json!({"drop": j}),
         Op::Avail(h, w) => json!({"available": {"handle": h, "waker": w}}),
         Op::Clone => json!("clone"),
+        Op::Debug(k) => json!({"debug_into_sink_failing_after": k}),
     }
 }
 
 fn op_from(v: &Value) -> Op {
     if v.as_str() == Some("clone") {
         Op::Clone
+    } else if let Some(k) = v.get("debug_into_sink_failing_after") {
+        Op::Debug(k.as_u64().unwrap() as usize)
     } else if let Some(h) = v.get("get") {
         Op::Get(h.as_u64().unwrap() as usize)
     } else if let Some(j) = v.get("drop") {
@@ -50,11 +55,12 @@ struct Sys {
     cap: usize,
     parked: Option<usize>,
     extra_wakes: u64,
+    debugged: bool,
 }
 
 impl Sys {
     fn new(cap: usize) -> Sys {
-        Sys { handles: vec![Counter::new(cap)], guards: vec![], wakers: [CountWaker::new(0), CountWaker::new(1)], cap, parked: None, extra_wakes: 0 }
+        Sys { handles: vec![Counter::new(cap)], guards: vec![], wakers: [CountWaker::new(0), CountWaker::new(1)], cap, parked: None, extra_wakes: 0, debugged: false }
     }
 
     /// Applies one op to the real object and to the reference; returns a complaint if they differ.
@@ -88,6 +94,12 @@ impl Sys {
             Op::Clone => {
                 let c = self.handles[0].clone();
                 self.handles.push(c);
+            }
+            Op::Debug(k) => {
+                self.debugged = true;
+                use std::fmt::Write as _;
+                let mut sink = FailingSink(k);
+                let _ = write!(sink, "{:?}", self.handles[0]);
             }
         }
         for h in &self.handles {
@@ -129,6 +141,11 @@ impl Sys {
         }
         if self.handles.len() < 2 {
             v.push(Op::Clone);
+        }
+        if self.parked.is_some() && !self.debugged {
+            // looking at a counter on which a task is parked (once per history is enough)
+            v.push(Op::Debug(0));
+            v.push(Op::Debug(30));
         }
         v
     }
@@ -451,6 +468,19 @@ fn reop_from(s: &str) -> ReOp {
 
 // ---- LocalWaker --------------------------------------------------------------------------
 
+/// A `fmt::Write` sink that accepts at most this many bytes.
+struct FailingSink(usize);
+impl std::fmt::Write for FailingSink {
+    fn write_str(&mut self, s: &str) -> std::fmt::Result {
+        if s.len() > self.0 {
+            self.0 = 0;
+            return Err(std::fmt::Error);
+        }
+        self.0 -= s.len();
+        Ok(())
+    }
+}
+
 fn local_waker_seq(seq: &[usize]) -> Option<(&'static str, String)> {
     let lw = LocalWaker::new();
     let wk = [CountWaker::new(0), CountWaker::new(1)];
@@ -470,6 +500,13 @@ fn local_waker_seq(seq: &[usize]) -> Option<(&'static str, String)> {
                 if let Some(w) = slot.take() {
                     expect[w] = 1;
                 }
+            }
+            5 | 6 | 7 => {
+                // `{:?}` of the LocalWaker into a sink that works (5), fails at once (6) or fails
+                // after 12 bytes (7): looking at it does not change it
+                use std::fmt::Write as _;
+                let mut sink = FailingSink(match *op { 5 => usize::MAX, 6 => 0, _ => 12 });
+                let _ = write!(sink, "{:?}", lw);
             }
             3 | 4 => {
                 let t = lw.take();
@@ -584,11 +621,11 @@ pub fn run(args: &Args) -> i32 {
     rep.set("counter_sequences_with_a_reentrant_waker", re_seqs);
     rep.set("counter_reentrant_depth", re_depth);
     // LocalWaker
-    let lw_len = 8;
+    let lw_len = args.tier.pick(7, 8);
     let mut lw_seqs = 0u64;
     let mut lw_wakes = 0u64;
     for len in 0..=lw_len {
-        mcutil::for_each_seq(5, len, |seq| {
+        mcutil::for_each_seq(8, len, |seq| {
             lw_seqs += 1;
             if seq.windows(2).any(|w| w[0] < 2 && (w[1] == 2 || w[1] == 4)) {
                 lw_wakes += 1;
